@@ -22,7 +22,7 @@ BUDGET = {"quick": 600, "thorough": 3600}
 CASE_TIMEOUT = 900
 
 # simplest first; the set is the design's {-3, -1, 0, 0.5, 1, 2, 100}: ties, repeats, negative values, one extreme value.
-VALUES = [0.0, 1.0, 2.0, -1.0, 0.5, -3.0, 100.0]
+VALUES = [1.0, 2.0, 0.0, 0.5, -1.0, -3.0, 100.0]
 WEIGHTS = [1.0, 2.0, 0.5, 0.0, 10.0]
 SHIFTS = [5.0, -0.25]
 SCALES = [2.0, 0.5]
@@ -537,7 +537,7 @@ def eval_weighted(ctx, vec, wts, full, sub, ref=None):
     if raw is not None and isinstance(centre, float) and math.isfinite(centre):
         if const:
             if abs(raw) > tolr:
-                ctx.violation("weighted MAD is zero for constant data", f"weighted_mad/zero-for-constant/{feat}/unscaled", expected=0.0, observed=raw, sub={**s2, "scale_to_sd": False})
+                ctx.violation("weighted MAD is zero for constant data", f"weighted_mad/zero-for-constant/{feat}", expected=0.0, observed=raw, sub={**s2, "scale_to_sd": False})
         else:
             dev = [abs(x - centre) for x in xs]
             if not M.is_weighted_median(raw, dev, ws):
